@@ -424,6 +424,13 @@ def validate_obs(ctx, module, cfg, obs_name, obs_path, timeout=1800, chunk=40000
     n = len(lines)
     if n == 0:
         raise MachineryError("driver recorded nothing")
+    save = os.environ.get("VERIF_SAVE_OBS")          # tools/selftest.py: keep a sample of what was validated
+    if save:
+        os.makedirs(save, exist_ok=True)
+        target = os.path.join(save, "%s__%s__%s__%s" % (ctx.prop, module, cfg, obs_name))
+        if not os.path.exists(target):
+            with open(target, "w") as fh:
+                fh.writelines(lines[:300])
     ctx.prepare_spec()
     bad = []
     for start in range(0, n, chunk):
